@@ -190,6 +190,11 @@ func Build(work string, mq *runner.Moq, t *gen.Tree, rng *rand.Rand, variants []
 			cmd := exec.Command("go", args...)
 			cmd.Dir = dir
 			cmd.Env = runner.ChildEnv()
+			if v != "race" {
+				// without cgo the Go runtime's deadlock detector ("all goroutines are asleep") is reliable: a binary
+				// that links package net with cgo enabled has an extra M and never reports a global deadlock
+				cmd.Env = append(cmd.Env, "CGO_ENABLED=0")
+			}
 			out, err := cmd.CombinedOutput()
 			mu.Lock()
 			defer mu.Unlock()
